@@ -144,7 +144,7 @@ func compareTrees(a, b string, out *simkit.Outcome, what string) {
 	}
 }
 
-func runPostOps(sc *bw.Scenario, w *world, cl *closure, res *vresult, log *simkit.Log, out *simkit.Outcome) {
+func runPostOps(sc *bw.Scenario, book *simkit.TapeBook, w *world, cl *closure, res *vresult, log *simkit.Log, out *simkit.Outcome) {
 	if res.bundle == nil || res.anyErr || len(sc.Post) == 0 {
 		return
 	}
@@ -173,7 +173,7 @@ func runPostOps(sc *bw.Scenario, w *world, cl *closure, res *vresult, log *simki
 			}
 			out.Probe("reopened")
 		case "ship":
-			runShip(sc, cl, res, orig, log, out)
+			runShip(sc, book, cl, res, orig, log, out)
 		case "corrupt":
 			runCorrupt(sc, cl, res, out)
 		case "torn":
@@ -183,11 +183,11 @@ func runPostOps(sc *bw.Scenario, w *world, cl *closure, res *vresult, log *simki
 }
 
 // runShip streams WriteArchive into ExtractArchive as two scheduled tasks over a SimPipe.
-func runShip(sc *bw.Scenario, cl *closure, res *vresult, orig []string, log *simkit.Log, out *simkit.Outcome) {
+func runShip(sc *bw.Scenario, book *simkit.TapeBook, cl *closure, res *vresult, orig []string, log *simkit.Log, out *simkit.Outcome) {
 	root := res.r.target
 	dst := "/w/extracted"
 	os.MkdirAll(dst, 0o755)
-	sched := simkit.NewSched(log, nil, simkit.NewRNG(sc.Seed, "bw/ship"), "random")
+	sched := book.NewSched(log, sc.Seed, "bw/ship", "random")
 	pipe := simkit.NewSimPipe(sc.PipeCap, sched, log)
 	var werr, rerr error
 	var wpan, rpan interface{}
